@@ -119,13 +119,13 @@ def plan(ctx):
     out = []
     if ctx.quick:
         out += [("vs_msg_le.xml", "17", "checked"), ("vs_msg_be.xml", "17", "checked"), ("vs_msg_be.xml", "20", "checked"), ("vs_hdr_c.xml", "17", "checked"),
-                ("vs_msg2_le.xml", "17", "checked"), ("vs_msg2_be.xml", "20", "checked"), ("vs_exotic.xml", "17", "checked")]
+                ("vs_msg2_le.xml", "17", "checked"), ("vs_msg2_be.xml", "20", "checked"), ("vs_exotic.xml", "17", "checked"), ("vs_hdr_j.xml", "17", "checked")]
     else:
         for std in ("11", "14", "17", "20"):
             for x in ("vs_msg_le.xml", "vs_msg_be.xml", "vs_msg2_le.xml", "vs_msg2_be.xml"):
                 out.append((x, std, "checked"))
         out += [("vs_msg_le.xml", "17", "unchecked"), ("vs_msg_be.xml", "20", "unchecked")]
-        out += [(x, "17", "checked") for x in ("vs_dims.xml", "vs_data_le.xml", "vs_data_be.xml", "vs_hdr_a.xml", "vs_hdr_b.xml", "vs_hdr_c.xml", "vs_hdr_d.xml", "vs_hdr_e.xml", "vs_hdr_g.xml", "vs_exotic.xml")]
+        out += [(x, "17", "checked") for x in ("vs_dims.xml", "vs_data_le.xml", "vs_data_be.xml", "vs_hdr_a.xml", "vs_hdr_b.xml", "vs_hdr_c.xml", "vs_hdr_d.xml", "vs_hdr_e.xml", "vs_hdr_g.xml", "vs_exotic.xml", "vs_hdr_j.xml")]
     return hgen.plan_env(out)
 
 
